@@ -137,6 +137,12 @@ fn run(case: &mut Case) -> Result<Outcome, String> {
     Ok(Outcome::Pass)
 }
 
+/// multiple of eps*(|A| |x| + |b|) below which a requested residual is not judged (survey override: VERIF_C09_FLOOR)
+fn floor_factor() -> f64 {
+    static F: std::sync::OnceLock<f64> = std::sync::OnceLock::new();
+    *F.get_or_init(|| std::env::var("VERIF_C09_FLOOR").ok().and_then(|v| v.parse().ok()).unwrap_or(1e3))
+}
+
 #[allow(clippy::too_many_arguments)]
 fn one(case: &mut Case, solver: usize, kind: usize, n: usize, a: &D, b: &[f64], x0: &[f64], xstar: &[f64], sc: f64, tol: f64, budget: usize, reducible: bool) -> Result<Outcome, String> {
     let (a, b, x0, xstar) = (a.clone(), b.to_vec(), x0.to_vec(), xstar.to_vec());
@@ -145,7 +151,7 @@ fn one(case: &mut Case, solver: usize, kind: usize, n: usize, a: &D, b: &[f64], 
     {
         let nb = norm2(&b);
         let nbn = if nb == 0.0 { 1.0 } else { nb };
-        let floor = 1e3 * super::util::EPS * (frob(&a) * norm2(&x0).max(norm2(&xstar) * sc) + nb);
+        let floor = floor_factor() * super::util::EPS * (frob(&a) * norm2(&x0).max(norm2(&xstar) * sc) + nb);
         if tol * nbn < floor {
             return Ok(Outcome::Discard("tolerance below 1e3*eps*(|A| |x| + |b|): not attainable in double precision"));
         }
@@ -159,6 +165,22 @@ fn one(case: &mut Case, solver: usize, kind: usize, n: usize, a: &D, b: &[f64], 
         _ => ref_bicgstab(&a, &b, &x0, ref_tol, ref_budget),
     };
     let Some(ref_it) = ref_it else { return Ok(Outcome::Discard("textbook method does not converge within 3n+10 at tol*1e-3")) };
+    if solver == 4 {
+        // QMR builds its iterates from a look-ahead-free two-sided Lanczos process: wherever that process comes close
+        // to a breakdown (|r~.r| << ||r~|| ||r||, or |p~.A p| << ||p~|| ||A p|| - common with a diagonal of mixed
+        // signs) the attainable residual grows by that factor.  Measured on the pinned tree over 1M systems: the
+        // level at which solve_qmr stalls never exceeded 0.84 * amp * eps * (|A| |x| + |b|), amp the largest such
+        // ratio seen by the textbook BiCG run; tolerances below 100 * amp * that unit are not judged for QMR.
+        if let Some((_, lan, piv)) = ref_bicg_amp(&a, &b, &x0, ref_tol, ref_budget) {
+            let nb = norm2(&b);
+            let nbn = if nb == 0.0 { 1.0 } else { nb };
+            let unit = super::util::EPS * (frob(&a) * norm2(&x0).max(norm2(&xstar) * sc) + nb);
+            if !reducible && tol * nbn < 100.0 * lan.max(piv) * unit {
+                case.class("qmr run not judged: tolerance below the near-breakdown floor");
+                return Ok(Outcome::Discard("qmr: tolerance below 100*amp*eps*(|A| |x| + |b|), amp = closeness of the Lanczos process to a breakdown"));
+            }
+        }
+    }
     let Some(kf) = cond_frob(&a) else { return Ok(Outcome::Discard("numerically singular")) };
     if kf > 1e8 {
         return Ok(Outcome::Discard("condition number > 1e8"));
@@ -177,6 +199,21 @@ fn one(case: &mut Case, solver: usize, kind: usize, n: usize, a: &D, b: &[f64], 
     let it = match res {
         Ok(it) => it,
         Err(e) => {
+            if crate::calib::on() && !reducible {
+                let nb = norm2(&b);
+                let nbn = if nb == 0.0 { 1.0 } else { nb };
+                let unit = super::util::EPS * (frob(&a) * norm2(&x0).max(norm2(&xstar) * sc) + nb);
+                let name: &'static str = ["c09 stall cg", "c09 stall bicg1", "c09 stall bicg2", "c09 stall bicgstab", "c09 stall qmr"][solver];
+                let amp = super::itersys::ref_bicg_amp(&a, &b, &x0, ref_tol, ref_budget);
+                crate::calib::note(name, e * nbn / unit, || format!("n={} {} tol={:.3e} e={:.3e} ref_it={} amp={:?}", n, KINDS[kind], tol, e, ref_it, amp));
+                if solver == 4 {
+                    if let Some((_, l, pv)) = amp {
+                        crate::calib::note("c09 stall qmr / lanczos amp", e * nbn / unit / l, || format!("n={} {} tol={:.3e} e={:.3e} amp={:?}", n, KINDS[kind], tol, e, amp));
+                        crate::calib::note("c09 stall qmr / pivot amp", e * nbn / unit / pv, || format!("n={} {} tol={:.3e} e={:.3e} amp={:?}", n, KINDS[kind], tol, e, amp));
+                        crate::calib::note("c09 stall qmr / max amp", e * nbn / unit / pv.max(l), || format!("n={} {} tol={:.3e} e={:.3e} amp={:?}", n, KINDS[kind], tol, e, amp));
+                    }
+                }
+            }
             // known finding D14 - signature from the input alone: QMR, block lower triangular pattern, right-hand side
             // at least 15 decades smaller outside the leading block, tolerance below 1e-5
             if solver == 4 && reducible && tol < 1e-5 && case.findings.is_known("C09", "D14-qmr-near-breakdown") {
@@ -212,10 +249,26 @@ fn one(case: &mut Case, solver: usize, kind: usize, n: usize, a: &D, b: &[f64], 
     let allow = inv_f * (10.0 * tol * nbn + drift) + 1e-10 * (nx + norm2(&x0));
     crate::calib::note("c09 err/(|A^-1| tol |b|)", err / (inv_f * tol * nbn).max(1e-300), || format!("{} n={} {}", SOLVERS[solver], n, KINDS[kind]));
     if !(err <= allow) {
-        return Err(format!(
-            "{}: Ok({}) but ||x - x*|| = {:.3e} exceeds ||A^-1||_F*(10*tol*||b|| + drift) + 1e-10*(||x*||+||x0||) = {:.3e} (kappa_F = {:.2e}, tol = {:.1e}); x = {:?}, x* = {:?}",
-            SOLVERS[solver], it, err, allow, kf, tol, x, xd
-        ));
+        // the gap between the recurrence residual and the true residual grows with the largest intermediate iterate
+        // (huge steps next to a near-breakdown): measure it by deterministic budget replay, as C08 does
+        let mut xmax = xbig;
+        for k in 1..it {
+            let mut xr = Vector::create(x0.clone());
+            let _ = catch(|| call(solver, &sp, &bv, &mut xr, k, tol));
+            let v = norm2(&xr.vec);
+            if v.is_finite() {
+                xmax = xmax.max(v);
+            }
+        }
+        case.class("largest iterate measured by budget replay");
+        let drift = 200.0 * (n as f64 + 2.0) * super::util::EPS * (it as f64 + 1.0) * (fa * xmax + nb);
+        let allow = inv_f * (10.0 * tol * nbn + drift) + 1e-10 * (nx + norm2(&x0));
+        if !(err <= allow) {
+            return Err(format!(
+                "{}: Ok({}) but ||x - x*|| = {:.3e} exceeds ||A^-1||_F*(10*tol*||b|| + drift) + 1e-10*(||x*||+||x0||) = {:.3e} (kappa_F = {:.2e}, tol = {:.1e}, largest iterate {:.3e}); x = {:?}, x* = {:?}",
+                SOLVERS[solver], it, err, allow, kf, tol, xmax, x, xd
+            ));
+        }
     }
     Ok(Outcome::Pass)
 }
